@@ -270,6 +270,15 @@ def run_shard(spec, res):
                     e = safe_build(d)
                 if e is None:
                     continue
+                if it % 4 == 1 and isinstance(e, claripy.ast.BV):
+                    # an expression that already contains names canonicalize hands out (the result of an earlier call)
+                    # next to other variables, renamed with a fresh map
+                    _, _, first = e.canonicalize()
+                    # (a name of its own: one name for two variables of different widths is not a use anybody makes)
+                    z_ = claripy.BVS(rng.choice(["zz", "zz", f"canonical_{100 + rng.randrange(3)}"]), e.length, explicit_name=True)
+                    e = rng.choice([first * z_, z_ + first, claripy.If(z_ == 0, first, e)])
+                    keep.append(e)
+                    res.count("canonicalize_over_canonical_names")
                 vmap, cnt, canon = e.canonicalize()
                 keep.append(canon)
                 res.case(["canonicalize", d, annotated], True)
